@@ -492,6 +492,23 @@ impl Property for C12 {
     }
     fn fixed_parts(&self, ctx: &mut Ctx) -> Vec<Violation> {
         let mut out = vec![];
+        // many blocks in one frame (up to 1000): no enumeration or random program gets there
+        let mut k = 0usize;
+        for n in crate::gen::scale::MANY_SCOPES.iter() {
+            for frame in 0..3 {
+                k += 1;
+                if !ctx.shard_mine(k) {
+                    continue;
+                }
+                ctx.label("many-scopes-program");
+                let prog = crate::gen::scale::many_scopes(*n, frame);
+                let case = || json!({"many_scopes": n, "frame": frame, "source": render::pretty(&prog), "ir": serde_json::to_value(&prog).unwrap()});
+                if let Err(mut v) = judge(&prog, ctx, true, &case) {
+                    v.detail = format!("[{} blocks in one {}] {}", n, ["top-level frame", "function frame", "method frame"][frame], v.detail);
+                    out.push(v);
+                }
+            }
+        }
         let (n, d) = ctx.tier.pick((4, 2), (5, 3));
         let mut i = 0usize;
         for_each_sequence(n, d, &mut |seq: &[S]| {
